@@ -315,7 +315,7 @@ def submit_incl(ctx, pool):
         jobs["gen"].append((fam, out, cfg, pool.submit(ctx.tlc, "pp", "Include", cfg, env=dict(OUT=out), workers=2 if q else 4, timeout=1500)))
     # sensitivity controls: the pinned algorithms must be rejected by TLC
     for name, fam, nopt, kw in CONTROLS:
-        cfg = ctx.cfg("pp", "Include_mc.cfg", Fam='"%s"' % fam, NOpt=nopt, Stride=1 if fam == "G" else (8 if fam == "C" else 6), **kw)
+        cfg = ctx.cfg("pp", "Include_mc.cfg", Fam='"%s"' % fam, NOpt=nopt, Stride=2 if fam == "G" else (16 if fam == "C" else 12), **kw)
         jobs["ctl"].append((name, pool.submit(ctx.tlc, "pp", "Include", cfg, workers=1, count=False)))
     return jobs
 
@@ -494,7 +494,7 @@ def run(ctx):
     tree = ctx.build()
     ctx.phase("build done")
     extra = {}
-    with concurrent.futures.ThreadPoolExecutor(6) as pool:
+    with concurrent.futures.ThreadPoolExecutor(8) as pool:
         jc = submit_cond(ctx, pool)
         ji = submit_incl(ctx, pool)
         je = submit_ifexpr(ctx, pool)
